@@ -240,7 +240,8 @@ def run(ck, tier):
                  % (len(cevs), total))
         judge.submit("model-cases", cevs)
         judge.collect()
-        _selftest(ck, work, cevs + wevs)
+        if not ck.violations:   # the self-test needs events the specification accepts
+            _selftest(ck, work, cevs + wevs)
 
         ck.nontrivial = len(judge.keys)
         ck.extra["emitted_cases_total"] = total
